@@ -3,7 +3,7 @@ model (Model/Driver.lean `WsReader`); (2) byte fidelity: the real tokio and thre
 transport (partial writes, stalls, read fragmentation) vs the byte stream the engine model predicts, with the write loop's
 accounting replayed by the model (`WriteLoop`); (3) result delivery: every submitted operation resolves exactly once, also
 around stop/close."""
-from gv import Rng, Finding, harness_batch, driver_batch, resp_fields, hexs, unhex
+from gv import harness_batch_parallel, Rng, Finding, harness_batch, driver_batch, resp_fields, hexs, unhex
 
 
 def gen_ws_case(rng):
@@ -319,3 +319,267 @@ def suite_results(report, tier, seed, prop="C13"):
                                            f"{kind} client: operation {idx} yielded more than one result ({outcome})", [req, "# impl: results=" + fa.get("results", "")]))
                 break
     report.obligation("mon:results", "monitor", mon_ok, f"{len(cases)} stop/close races on the real clients (submissions before, during and after close, concurrent submitters): every operation resolved exactly once")
+
+
+# ---------------------------------------------------------------------------------------------------------------------
+# lifecycle and inbound order as an application's listener sees them, on the real clients
+
+def gen_real_lifecycle(rng, i):
+    kind = "tokio" if i % 2 == 0 else "threaded"
+    v = rng.choice([5, 311])
+    transport = rng.choice(["ok", "ok", "refuse-some", "refuse-all", "silent"])
+    head = f"drv.run kind={kind} v={v} backoff={rng.choice([3, 10, 20])} ctimeout=150"
+    if transport == "refuse-some":
+        head += f" refuse={rng.choice([1, 2, 5])}"
+    elif transport == "refuse-all":
+        head += " refuse=100000"
+    elif transport == "silent":
+        head += " answer=0"
+    steps = []
+    last = None
+    for _ in range(rng.choice([1, 2, 3, 5])):
+        op = rng.choice(["start", "start", "stop", "drop", "pub:1:0", "close"] if last != "close" else ["start", "stop"])
+        if op == "close" and rng.chance(0.5):
+            continue
+        steps.append(op)
+        if op in ("start", "stop", "close"):
+            last = op
+        # requests back to back (inside one pass of the loop), or spaced so that the loop has reacted in between
+        if rng.chance(0.55):
+            steps.append(f"sleep:{rng.choice([1, 5, 30, 60])}")
+    ending = rng.choice(["stop", "stop", "close", "close-start", "close-stop", "start", "none"])
+    if ending == "close-start":
+        steps += ["close", "start"]
+    elif ending == "close-stop":
+        steps += ["close", "stop"]
+    elif ending != "none":
+        steps.append(ending)
+    steps += ["sleep:400", "mark:settled", "sleep:150"]
+    if any(s == "close" for s in steps):
+        steps += ["start", "sleep:120"]
+    return head + " | " + ";".join(steps), kind, transport
+
+
+def lifecycle_verdict(events):
+    """events: names and |markers| in the order the listener / the controller recorded them"""
+    from suites_client import check_grammar
+    life = [(i, e) for i, e in enumerate(events) if not e.startswith("|") and not e.startswith("Publish")]
+    g = check_grammar(life)
+    if g:
+        return "event-grammar", "the event stream seen by a listener is not well-formed: " + g
+    settled = events.index("|settled|") if "|settled|" in events else len(events)
+    marks = [(i, e) for i, e in enumerate(events[:settled]) if e in ("|start|", "|stop|", "|close|")]
+    late = [e for e in events[settled + 1:] if not e.startswith("|")]
+    closed = [i for i, e in marks if e == "|close|"]
+    if closed:
+        if late:
+            return "alive-after-close", f"events {late} were emitted after close() had been requested and the client had 400 ms to finish"
+        return None
+    if marks and marks[-1][1] == "|stop|":
+        names = [e for _, e in life]
+        last_s = max([k for k, e in enumerate(names) if e == "Stopped"], default=-1)
+        if any(e == "Attempt" for e in names[last_s + 1:]):
+            return "stop-never-stops", "a stop request that no later start supersedes did not end in a Stopped event within 400 ms (attempts continue)"
+        after_stop = [e for i, e in life if i > marks[-1][0]]
+        if after_stop.count("Stopped") > 1:
+            return "stopped-twice", "more than one Stopped event for one stop request"
+        if late:
+            return "attempt-after-stop", f"events {late} after the client had stopped, without a start"
+    return None
+
+
+def suite_real_lifecycle(report, tier, seed, prop="C12"):
+    rng = Rng(seed, "real-lifecycle")
+    n = 36 if tier == "quick" else 900
+    cases = [gen_real_lifecycle(rng, i) for i in range(n)]
+    corpus = []
+    for kind in ("threaded", "tokio"):
+        corpus += [(f"drv.run kind={kind} v=5 backoff=10 ctimeout=150 refuse=100000 | start;sleep:30;close;start;sleep:400;mark:settled;sleep:150;start;sleep:120", kind, "refuse-all"),
+                   (f"drv.run kind={kind} v=5 backoff=10 ctimeout=150 refuse=100000 | start;sleep:30;close;stop;sleep:400;mark:settled;sleep:150;start;sleep:120", kind, "refuse-all"),
+                   (f"drv.run kind={kind} v=5 backoff=10 ctimeout=150 | start;waitwire:1;close;start;sleep:400;mark:settled;sleep:150;start;sleep:120", kind, "ok"),
+                   (f"drv.run kind={kind} v=5 backoff=10 ctimeout=150 answer=0 | start;waitwire:1;stop;sleep:400;mark:settled;sleep:150", kind, "silent")]
+    cases = corpus + cases
+    impl = harness_batch_parallel([c[0] for c in cases])
+    mon_ok = True
+    for (req, kind, transport), a in zip(cases, impl):
+        report.case(req)
+        report.traces_validated += 1
+        report.count(f"real-lifecycle.{kind}.{transport}")
+        fa, _ = resp_fields(a)
+        if fa.get("res") != "ok":
+            mon_ok = False
+            report.add_finding(Finding(prop, "mon:real-lifecycle", {"clause": "scenario-failed", "kind": kind}, "driver scenario failed: " + a[:160], [req]))
+            continue
+        events = [e for e in fa.get("events", "").split(",") if e]
+        for e in events:
+            if not e.startswith("|"):
+                report.count("real-lifecycle.event." + e.split(".")[0])
+        verdict = lifecycle_verdict(events)
+        if verdict:
+            mon_ok = False
+            report.add_finding(Finding(prop, "mon:real-lifecycle", {"clause": verdict[0], "kind": kind}, f"{kind} client: {verdict[1]}", [req, "# impl: events=" + fa.get("events", "")]))
+    report.obligation("mon:real-lifecycle", "monitor", mon_ok,
+                      f"{len(cases)} start/stop/close schedules on the real tokio/threaded clients (requests back to back and spaced; refusing, silent and answering transports): "
+                      "listener sees a well-formed stream, a final stop stops, close is terminal")
+
+
+def server_publish(v, qos, pid, tag):
+    topic = b"in/t"
+    body = len(topic).to_bytes(2, "big") + topic + (pid.to_bytes(2, "big") if qos else b"") + (b"\x00" if v == 5 else b"") + tag.to_bytes(2, "big")
+    return bytes([0x30 | (qos << 1), len(body)]) + body
+
+
+def gen_real_inbound(rng, i):
+    kind = "tokio" if i % 2 == 0 else "threaded"
+    v = rng.choice([5, 311])
+    n = rng.choice([1, 2, 5, 12, 30])
+    stream, tags = b"", []
+    for k in range(n):
+        qos = rng.choice([0, 0, 1, 2])
+        stream += server_publish(v, qos, k + 1, k)
+        tags.append(k)
+    # how the bytes reach the client: one burst, packet by packet, or arbitrary cuts
+    cuts = sorted({rng.randint(1, len(stream) - 1) for _ in range(rng.choice([0, 0, 1, 3, 8]))}) if len(stream) > 1 else []
+    parts = [stream[a:b] for a, b in zip([0] + cuts, cuts + [len(stream)])]
+    steps = ["start", "waitwire:1", "sleep:20"]
+    for p in parts:
+        steps.append("inject:" + p.hex())
+        if rng.chance(0.4):
+            steps.append(f"sleep:{rng.choice([1, 3])}")
+    steps.append("sleep:150")
+    rplan = [rng.choice(["f1", "f2", "f7", "f100", "b"]) for _ in range(rng.choice([0, 0, 4, 10]))]
+    head = f"drv.run kind={kind} v={v}" + (f" rplan={','.join(rplan)}" if rplan else "")
+    return head + " | " + ";".join(steps), kind, tags
+
+
+def suite_real_inbound(report, tier, seed, prop="C05"):
+    rng = Rng(seed, "real-inbound")
+    n = 24 if tier == "quick" else 600
+    cases = [gen_real_inbound(rng, i) for i in range(n)]
+    impl = harness_batch_parallel([c[0] for c in cases])
+    mon_ok = True
+    for (req, kind, tags), a in zip(cases, impl):
+        report.case(req)
+        report.traces_validated += 1
+        report.count(f"real-inbound.{kind}")
+        fa, _ = resp_fields(a)
+        if fa.get("res") != "ok":
+            mon_ok = False
+            report.add_finding(Finding(prop, "mon:real-inbound", {"clause": "scenario-failed", "kind": kind}, "driver scenario failed: " + a[:160], [req]))
+            continue
+        got = [int(e.split(".x")[1], 16) for e in fa.get("events", "").split(",") if e.startswith("Publish.x") and len(e) > 9]
+        report.count("real-inbound.messages", len(got))
+        if got != tags:
+            mon_ok = False
+            clause = "surfaced-out-of-order" if sorted(got) == tags else ("lost" if len(got) < len(tags) else "duplicated")
+            report.add_finding(Finding(prop, "mon:real-inbound", {"clause": clause, "kind": kind},
+                                       f"{kind} client: {len(tags)} publishes arrived in wire order 0..{len(tags) - 1}; the listener was given {got}", [req, "# impl: events=" + fa.get("events", "")[:600]]))
+    report.obligation("mon:real-inbound", "monitor", mon_ok, f"{len(cases)} inbound bursts on the real tokio/threaded clients: the listener is given every message once, in wire order")
+
+
+# ---------------------------------------------------------------------------------------------------------------------
+# byte fidelity across a connection that ends with unsent bytes
+
+def gen_reconnect_fidelity(rng, i):
+    kind = "tokio" if i % 2 == 0 else "threaded"
+    v = rng.choice([5, 311])
+    fault = rng.choice(["write-error", "write-error", "drop", "stop-start"])
+    ops, steps = [], ["start", "waitwire:1", "sleep:10"]
+
+    def add_op(sizes, only_pub=False):
+        k = rng.choice(["pub", "pub", "pub", "sub", "unsub"]) if not only_pub else "pub"
+        a = rng.choice([0, 1, 1]) if k == "pub" else 1
+        size = rng.choice(sizes) if k == "pub" else 0
+        ops.append((k, a, len(ops), size))
+        steps.append(f"{k}:{a}:{size}" if k == "pub" else k)
+
+    wplan = ["a100000"] + [f"a{rng.choice([1, 2, 5, 9])}" for _ in range(rng.choice([0, 1, 1, 2]))]
+    add_op([40, 300, 5000], only_pub=True)     # larger than everything the transport accepts before the fault
+    if fault == "write-error" and rng.chance(0.3):
+        wplan.append("e")                    # fails at once (possibly after partial acceptance)
+        steps.append("waitconns:2")
+    else:
+        wplan.append("b")
+        steps.append("waitblocked")
+        for _ in range(rng.choice([0, 1, 3])):
+            add_op([0, 40, 300])
+        steps.append("sleep:5")
+        if fault == "write-error":
+            wplan.append("e")
+            steps += ["release", "waitconns:2"]
+        elif fault == "drop":
+            steps += ["drop", "waitconns:2"]
+        else:
+            steps += ["stop", "sleep:60", "start", "waitconns:2"]
+    steps += [f"waitwire:{1 + len(ops)}", "waitdone:4000"]
+    head = f"drv.run kind={kind} v={v} backoff=5 wplan={','.join(wplan)}"
+    return head + " | " + ";".join(steps), v, ops, kind, fault
+
+
+def reconnect_expected(v, ops):
+    connack = "x2003000000" if v == 5 else "x20020000"
+    reqs = ["session.reset", f"eng.new v={v} policy=all | cid={hexs(b'drv')} rejoin=post",
+            "eng.open t=0 deadline=30000", "eng.svc t=0 cap=100000000 prefill=0", "eng.wc t=0", f"eng.data t=0 b={connack}",
+            op_text(*ops[0]), "eng.svc t=0 cap=100000000 prefill=0"]
+    reqs += [op_text(*o) for o in ops[1:]]
+    reqs += ["eng.close t=0", "eng.open t=0 deadline=30000", "eng.svc t=0 cap=100000000 prefill=0", "eng.wc t=0", f"eng.data t=0 b={connack}",
+             "eng.svc t=0 cap=100000000 prefill=0"]
+    return reqs
+
+
+def suite_reconnect_fidelity(report, tier, seed, prop="C13"):
+    rng = Rng(seed, "reconnect-fidelity")
+    n = 24 if tier == "quick" else 600
+    cases = [gen_reconnect_fidelity(rng, i) for i in range(n)]
+    cases = [("drv.run kind=threaded v=5 backoff=5 wplan=a100000,a5,b,e | start;waitwire:1;sleep:10;pub:1:40;waitblocked;sleep:5;release;waitconns:2;waitwire:2;waitdone:4000", 5, [("pub", 1, 0, 40)], "threaded", "write-error"),
+             ("drv.run kind=tokio v=5 backoff=5 wplan=a100000,a5,b,e | start;waitwire:1;sleep:10;pub:1:40;waitblocked;sleep:5;release;waitconns:2;waitwire:2;waitdone:4000", 5, [("pub", 1, 0, 40)], "tokio", "write-error")] + cases
+    impl = harness_batch_parallel([c[0] for c in cases])
+    mreqs, spans = [], []
+    for req, v, ops, kind, fault in cases:
+        r = reconnect_expected(v, ops)
+        spans.append((len(mreqs), len(r)))
+        mreqs += r
+    mout = driver_batch(mreqs)
+    mon_ok = True
+    for (req, v, ops, kind, fault), a, (pos, ln) in zip(cases, impl, spans):
+        report.case(req)
+        report.traces_validated += 1
+        report.count(f"reconnect-fidelity.{kind}.{fault}")
+        fa, _ = resp_fields(a)
+        outs = mout[pos:pos + ln]
+        b = lambda k: unhex(resp_fields(outs[k])[0].get("bytes", "x"))
+        first = b(3) + b(7)
+        second = b(-4) + b(-1)
+        if fa.get("res") != "ok":
+            mon_ok = False
+            report.add_finding(Finding(prop, "mon:reconnect-fidelity", {"clause": "scenario-failed", "kind": kind}, "driver scenario failed: " + a[:160], [req]))
+            continue
+        if fa.get("notes"):
+            report.count("reconnect-fidelity.notes." + fa["notes"].split(":")[0])
+        wires = [unhex(w) for w in fa.get("wires", "").split(",") if w]
+        if len(wires) != 2:
+            mon_ok = False
+            report.add_finding(Finding(prop, "mon:reconnect-fidelity", {"clause": "connection-count", "kind": kind},
+                                       f"{kind} client: {len(wires)} connections were made (one fault, one reconnect expected)", [req, "# impl: " + a[:400]]))
+            continue
+        problem = None
+        if wires[0] != first[:len(wires[0])]:
+            problem = ("first-connection", f"the first connection received bytes that are not a prefix of the engine's stream ({wires[0][:40].hex()}.. vs {first[:40].hex()}..)")
+        elif wires[1] != second:
+            k = next((i for i in range(min(len(wires[1]), len(second))) if wires[1][i] != second[i]), min(len(wires[1]), len(second)))
+            problem = ("second-connection", f"after a connection that ended with unsent bytes ({fault}), the next transport received {len(wires[1])} bytes where the engine's stream for that "
+                                            f"connection is {len(second)} bytes; first difference at offset {k} (transport {wires[1][max(0, k - 4):k + 10].hex()}, engine {second[max(0, k - 4):k + 10].hex()})")
+        if problem:
+            mon_ok = False
+            report.add_finding(Finding(prop, "mon:reconnect-fidelity", {"clause": problem[0], "kind": kind}, f"{kind} client: {problem[1]}",
+                                       [req, "# transport 1: " + hexs(wires[0])[:300], "# transport 2: " + hexs(wires[1])[:300], "# engine 2:    " + hexs(second)[:300]]))
+            continue
+        results = fa.get("results", "")
+        bad = [r for r in results.split(",") if r and not r.endswith(":ok")]
+        if bad:
+            mon_ok = False
+            report.add_finding(Finding(prop, "mon:reconnect-fidelity", {"clause": "result", "kind": kind},
+                                       f"{kind} client: operations {bad} did not each resolve successfully exactly once although the second connection was healthy", [req, "# impl: results=" + results]))
+    report.obligation("mon:reconnect-fidelity", "monitor", mon_ok,
+                      f"{len(cases)} scenarios: a connection of the real tokio/threaded client ends (write error, EOF, stop) while bytes are unsent; the next transport receives exactly "
+                      "the engine model's stream for the new connection (CONNECT first, nothing stale, nothing lost)")
